@@ -204,6 +204,8 @@ def generate(tier, seed, ctx):
         else:
             t = rng.uniform(l[0] - 1, l[-1] + 1)
         R.append("c19.closest %s %s" % (lst(l), hx(t)))
+    for t in (0.0, -1.5, 3.0, 1e300, -DBL_MAX, 5e-324):   # an empty list has no closest location -> diagnostic
+        R.append("c19.closest 0 %s" % hx(t))
     for _ in range(40):   # unsorted -> diagnostic
         n = rng.randint(2, 12)
         l = [dyadic(rng, -8, 8, 3) for _ in range(n)]
@@ -304,6 +306,8 @@ def generate(tier, seed, ctx):
             R.append("c19.listseq2 %d %s %d %s" % (len(ls), " ".join(ilst(l) for l in ls), len(rep), " ".join(ilst(l) for l in rep)))
         n = rng.randint(0, 6)
         R.append("c19.transpose2 %s %s" % (ilst(il(n)), ilst(il(n if rng.random() < 0.8 else n + 1))))
+    R.append("c19.transpose 0")      # the transpose of zero lists is the empty list
+    R.append("c19.flatten 0")
     # Lists_Equal over double (flat and nested): signed zeros of every origin, NaN, infinities, subnormals
     rng4 = random.Random(seed * 32452843 + 1902)
     ordinary = [(hx(v), v) for v in (1.0, -1.0, 2.5, -2.5, 0.5, 3.0)]
